@@ -72,7 +72,7 @@ Print Assumptions c20_pause_flag_owner_only.
 (* the endpoint table regenerated from the sources: a new or re-annotated endpoint breaks this pin *)
 Example pin_its_endpoints : gen_its_endpoints =
   [("setFlowLimits", "", false); ("execute", "EGLD", false); ("registerTokenMetadata", "EGLD", false); ("interchainTransfer", "*", false);
-   ("callContractWithInterchainToken", "*", false); ("deployInterchainToken", "*", false); ("approveDeployRemoteInterchainToken", "", false);
+   ("callContractWithInterchainToken", "*", false); ("deployInterchainToken", "EGLD", false); ("approveDeployRemoteInterchainToken", "", false);
    ("revokeDeployRemoteInterchainToken", "", false); ("deployRemoteInterchainToken", "EGLD", false); ("deployRemoteInterchainTokenWithMinter", "EGLD", false);
    ("registerCanonicalInterchainToken", "", false); ("deployRemoteCanonicalInterchainToken", "EGLD", false); ("registerCustomToken", "", false);
    ("linkToken", "EGLD", false); ("setTrustedAddress", "", true); ("removeTrustedAddress", "", true)]%string := eq_refl.
